@@ -540,3 +540,9 @@ func init() {
 	addMutant(Mutant{Name: "c19-leaflist-bool-asserted", Property: "C19", File: "ygot/render.go",
 		Old: "\t\treturn append(l, v.Bool()), nil", New: "\t\treturn append(l, ival.(bool)), nil", Expect: "assert-bool#"})
 }
+
+func init() {
+	// R-DECIMAL-EXACT (C06)
+	addMutant(Mutant{Name: "c06-decimal-fromfloat", Property: "C06", File: "ytypes/decimal_type.go",
+		Old: "isInRanges(schemaType.Range, decimalNumber(floatVal))", New: "isInRanges(schemaType.Range, yang.FromFloat(floatVal))", Expect: "ValidateDecimalRestrictions:FromFloat"})
+}
